@@ -26,7 +26,7 @@ struct CallSite { int op; bool child; uint8_t kind; int nth; };
 // Rare conditions we want to know were reached.
 #define PROBES(X)                                                                                                       \
   X(getcwd_grew) X(partial_write) X(write_parked) X(read_parked) X(eof_before_exit) X(exit_before_eof)                   \
-  X(data_at_death) X(descendant_left) X(thread_stalled) X(user_file_on_low_fd) X(string_reused_in_place) X(wall_clock_stepped) X(zombie_gap_seen) X(deadline_eq_timeout) X(equal_deadlines) X(expired_at_poll) X(eintr_poll)        \
+  X(data_at_death) X(descendant_left) X(errno_clobbered_by_handler) X(thread_stalled) X(user_file_on_low_fd) X(string_reused_in_place) X(wall_clock_stepped) X(zombie_gap_seen) X(deadline_eq_timeout) X(equal_deadlines) X(expired_at_poll) X(eintr_poll)        \
   X(eintr_read) X(eintr_write) X(eintr_waitpid) X(fault_parent) X(fault_child) X(pid_reused_live_handle)                 \
   X(lib_fd_on_012) X(limit_minus_1_open) X(preempt_in_pipe_init) X(stop_all_waits_expired) X(term_ignored_then_kill)     \
   X(destroy_not_started) X(destroy_failed_start) X(destroy_running) X(destroy_exited_unreaped) X(destroy_reaped)         \
